@@ -42,6 +42,43 @@ def stub_table(src, cls_suffix):
     return table
 
 
+def stub_cache_keys(src, cls_suffix):
+    """-> {property name: sorted list of the constant keys it uses on self._stubs}: the stub cache is shared by all
+    properties of a transport, so two properties using one key hand out each other's stub"""
+    tree = ast.parse(src)
+    cls = [n for n in tree.body if isinstance(n, ast.ClassDef) and n.name.endswith(cls_suffix)]
+    if len(cls) != 1:
+        raise core.Inconclusive(f"transport class *{cls_suffix} not found")
+    out = {}
+    for fn in cls[0].body:
+        if not isinstance(fn, ast.FunctionDef):
+            continue
+        keys = set()
+        for node in ast.walk(fn):
+            if isinstance(node, ast.Subscript) and ast.unparse(node.value) == "self._stubs" and isinstance(node.slice, ast.Constant):
+                keys.add(node.slice.value)
+            if isinstance(node, ast.Compare) and len(node.comparators) == 1 and ast.unparse(node.comparators[0]) == "self._stubs" \
+                    and isinstance(node.left, ast.Constant):
+                keys.add(node.left.value)
+        if keys:
+            out[fn.name] = sorted(keys)
+    return out
+
+
+def stub_cache_problems(src, cls_suffix):
+    keys = stub_cache_keys(src, cls_suffix)
+    bad = {}
+    owner = {}
+    for prop, ks in keys.items():
+        if len(ks) != 1:
+            bad[prop] = f"property {prop} uses the stub-cache keys {ks} (expected exactly one)"
+            continue
+        if ks[0] in owner:
+            bad[prop] = f"properties {owner[ks[0]]} and {prop} share the stub-cache key {ks[0]!r}"
+        owner.setdefault(ks[0], prop)
+    return keys, bad
+
+
 def shared_state(src):
     """-> [(class, attribute, rebound_in_init)] for class-level attributes initialised with a mutable literal"""
     out = []
@@ -117,6 +154,13 @@ def table_diff(g):
             if not re.search(rf"self\.{attr}: (?:self\._wrap_method|gapic_v1\.method(?:_async)?\.wrap_method)\(\s*self\.{attr},", base_src) \
                     and which == "client":
                 bad[f"base-wrap:{attr}"] = f"base transport does not wrap self.{attr}"
+    for tname, fname, suffix in (("grpc", "grpc.py", "GrpcTransport"), ("grpc_asyncio", "grpc_asyncio.py", "GrpcAsyncIOTransport")):
+        keys, kbad = stub_cache_problems(g.text(f"services/library/transports/{fname}"), suffix)
+        for prop in keys:
+            if prop in kbad:
+                bad[f"stub-cache:{tname}.{prop}"] = kbad[prop]
+            else:
+                oks.append(f"stub-cache:{tname}.{prop}")
     return oks, bad, tables
 
 
